@@ -84,7 +84,7 @@ def compare_case(kind, impl, model, fields=None):
         return ["outcome impl=%s model=%s" % (oi, om)]
     if oi != "ok":
         return []
-    if kind == "G":
+    if kind in ("G", "K"):
         return [] if bi == bm else ["G impl=%r model=%r" % (bi, bm)]
     if kind == "C":
         return compare_frames(bi, bm)
